@@ -8,7 +8,7 @@ META = {
     "category": "proof",
     "text": "Kernel-checked theorems compile_has_cert and compiled_code_balanced: the model of the code generator (all scoped statement kinds, break/continue with the scope clean-up of fix 778ebf9, recursive loops, macros, call blocks, imports, arbitrary nesting) only produces instruction streams with an accepted certificate, so every run of the abstract VM on them is balanced; the model generator's output is compared with the real compiler's stream for every enumerated shape. Kernel-checked theorem checkCert_sound: if the verified checker accepts a certificate for an instruction stream, then from every region entry (pc 0, every macro body) EVERY reachable state of the abstract VM (all branches of conditional jumps and Iterate, any iteration count, any depth of loop(...) recursion) never pops a frame / capture / auto-escape entry the region did not push nor a frame of the wrong kind, and every exit (end of stream, Return) carries exactly the entry depths; corollary: frames, capture depth and auto-escape depth at a pc are path independent (text after a construct goes to the same output target whichever path was taken). The check compiles the repository's templates and an exhaustive enumeration of nestings of for/for-else/filtered for/recursive for/with/set-block/filter/autoescape/if/macro/call/block (+ completed sibling constructs) with break/continue/loop()/empty bodies at the innermost position with the REAL compiler, and runs the verified checker on every stream (main, blocks, macro bodies). with_auto_escape_restores (State::with_auto_escape, the one save/restore outside with_execution_state and the instruction pairs; inverted_restore_guard_leaks shows the model tells the guarded variant apart); state_writers_classified (EVERY assignment / mem::replace / swap / take of auto_escape, current_block, instructions, blocks, loaded_templates, ctx, the frame stack, depth, closure register and capture stack anywhere in the crate, regenerated from source, is a classed site), helper_restores_unconditional (each helper restores after the nested run at the run's own nesting depth with no return / early-return macro between), state_builtins_covered (every builtin with a State parameter is applied by the harness). include_statement_restores / include_noop_untouched: the whole perform_include (candidate loop, lookup errors, found template Ok/Err, nothing found + ignore missing) restores frames INCLUDING the closure attachment of the including frame; hoisted_take_closure_is_not_a_restore shows the model distinguishes the variant with take_closure in front of the loop. Table ties (regenerated from source every run, proved by decide): alphabet_covers_enum, other_arms_touch_nothing, mapped_arms_as_modelled (eval_impl arms vs the model's alphabet), codegen_arms_as_modelled (compile_stmt arms, start/end_scope placement, leave_scopes_of_innermost_loop vs the model generator), restore_order_as_modelled. nested_restores: in the model MJ/Model/Nested.lean of with_execution_state / eval_macro (Macro::call, State::call_macro) / call_block (State::render_block) / perform_super / perform_include, frames, recursion depth, instructions, auto-escape mode, current block, block table and loaded templates after the wrapper equal those before it on the Ok AND on the Err outcome of the nested evaluation (the caller's Output is untouched by macro calls and render_block, which write into their own Output). OPERAND STACK ACROSS loop(...) RECURSION (new): recursion_bases_paired / certified_recursion_bases_paired — in the machine MJ/Model/Ops.lean (one activation of eval_impl: operand-stack height with the effect of every instruction, frames, next_loop_recursion_jump and loop_recursion_bases as in the engine, ghost: the base each loop frame's own PushLoop recorded) every reachable state of every stream whose projection has an accepted certificate has loop_recursion_bases equal to the bases of the live loop frames, innermost first, and a frame has a base iff it carries a recursion return: pushes and pops are paired with the loop frames for the captured (CallFunction) and the fast (FastRecurse) entry alike, under any nesting, on every path; the frame-discipline hypothesis is discharged by checkCert_sound through a proved simulation of the two machines (MJ/Proofs/OpsBal.lean: sim_reach). popLoopFrame_truncates_to_own_base / certified_recursion_return: the PopLoopFrame of a recursion level truncates exactly to the base the PushLoop of the same frame recorded (only successor); pushLoop_records_height_under_argument: that base is the height under the call's argument; recursion_restores_operands: a level that stays above its base hands back exactly base (+1 captured value). capturedOnly_leaks_else_flag: the model tells the variant apart that only records a base for the captured form (the else flag of the level is left under the call's result). recursion_bases_sites_as_modelled: every statement of eval_impl / push_loop that touches loop_recursion_bases, next_loop_recursion_jump, recursion_jump, current_recursion_jump or truncates the operand stack, with its guarding conditions, regenerated from source (push under recursion_jump.is_some(), pop under the frame's current_recursion_jump being Some). FAILURE ANYWHERE (new): certified_run_keeps_callers_stacks — the abstract machine started on top of arbitrary caller stacks (with frames, loop frames of other streams, open captures, escape entries): for a certified stream, in every reachable state, i.e. wherever a failing instruction stops a nested evaluation, the caller's frames are underneath untouched and in order, at least its captures / escape entries are open, the next instruction pops none of them, and a normal exit leaves exactly the caller's stacks (frame rule step_lift / reach_lift) — the hypotheses FramesOnTop / BalancedOnOk of nested_restores for every program counter. BACK-PATCHING (new): backpatching_generator_eq / backpatched_code_balanced — the model of CodeGenerator written the way codegen.rs is (add appends, placeholder targets, pending_block stack with Branch / Loop{iter_instr, jump_instrs} / Scope, end_condition / end_for_loop / compile_macro_expression write the targets afterwards, break registers with the innermost pending loop, continue reads its iter_instr, leave_scopes_of_innermost_loop walks the stack; MJ/Model/BalPatch.lean) emits for EVERY statement tree exactly the instruction list of the size-computing generator and leaves pending_block empty; backpatch_sites_as_modelled ties its primitives to codegen.rs (landmark sequences regenerated from source); drive_c05 executes the back-patching generator on every shape and compares it with the real stream. FULL STATEMENT (session 4): C05_full E (for all accepted templates, all paths from every region entry: nothing popped that the region did not push, exits at entry stacks; same pc => same frames / capture depth / escape depth; a nested run on top of ANY caller stacks keeps them wherever it stops; NestedRestores) and C05_main: C05_full from two named hypotheses about the real code, h_parser (the in_loop discipline, validated by the nocompile stream) and h_codegen (codegen.rs emits what MJ.BalPatch.gen emits, validated by the stream comparison and tied by codegen_arms_as_modelled / backpatch_sites_as_modelled); C05_main_validated: the same conclusion for every stream the verified checker accepted at run time. vm_arm_effects_as_modelled (session 4): table C05_VM_EFFECTS = the count of EVERY push_frame / pop_frame / begin_capture / end_capture / auto_escape_stack.push|pop / loop_recursion_bases.push|pop call in every arm of eval_impl (push_loop inlined, recurse_loop! as a row of its own with its `if $capture`, the end-of-stream logic, the prologue), regenerated from vm/mod.rs on every run, equals what one step of MJ.Ops.step pushes / pops at most on each of its four stacks, MEASURED by executing the machine on probe states (MJ/Model/OpsArms.lean), for all 67 arms: an arm that gains or loses one breaks the theorem; LoadBlocks' discard capture is paired with the only end_capture of the end-of-stream logic. EXPRESSIONS (session 4): expression_code_is_flat — the code MJ.BalExpr.gen emits for every expression tree (and / or, inline if, chained comparisons, captured loop(x) calls, any nesting) is a `flat` block of the statement model. EXTENDS (session 4): extends_pairs_with_end_of_stream — in the model MJ/Model/Extends.lean of the LoadBlocks arm and of the end-of-stream logic (entries of the capture stack tagged with who pushed them, parent_instructions), a LoadBlocks at relative capture depth 0 followed by balanced capture events reaches the end of the stream with its own Discard entry on top, the one end_capture there pops exactly it and the template's capture stack is what it found; second_extends_fails; extends_inside_capture_mispairs: the path the hypothesis excludes and the code does not ({% set x %}{% extends %}{% endset %}: depth restored, pairing not — observation, see level_note). New dynamic streams (session 4): (5) NOT-ENCLOSED: break / continue / loop(x) / loop(x)|f leaves are generated at EVERY position of every chain, also where no loop (no recursive loop of the same stream) encloses them — across macro / call / block bodies, in else branches, outside any loop: the compiler has to refuse the template, or the code it emits is held to the property like any other (streams to the verified checker, one render that must not panic, leave an activation with other depths, or spin until the fuel is gone); (6) REPEAT: every shape of depth <= 2 and every fourth other shape is run as the body of `{% for rep in reps %}` with one and with two items, under the default recursion limit and (shapes with nested evaluations) under limits 7 / 10 / 14 / 19 / 25: the second run must print the same text again or fail where the first failed — the engine compared with itself, no reference involved: catches whatever a construct leaves behind that changes behaviour (depth budget, pooled macro contexts, block table, escape mode, frames, locals of a loop iteration via the probe `rl`); (7) entry point extends+super: every shape also as the PARENT of a generated child that overrides each of its blocks by ⟦{{ super() }}⟧ / ⟦{{ super()|safe }}⟧: main stream behind LoadBlocks and the end-of-stream switch, every block body through perform_super (statement and captured form), failures inside them through its error path with the ExecSnapshot comparison at FastSuper / render_block; the `extends` statement of the child sits at the top level and — rotating with the shape, all seven for chains of length <= 1 — inside a set-block / filter block / with / for / if / autoescape of the child: the renders must agree (the child's own output is discarded wherever the statement sits, the parent's output has to reach the real output; seeded C05-8 needs exactly this). The included child (inc.html) and the imported module (lib.txt) of the kinds seqI / seqM / seqP themselves EXTEND lexically inside a set-block resp. an if + filter block, so that at every position of every chain and through every entry point the crossed path (the block's EndCapture pops LoadBlocks' discard entry, the block's own capture is what the parent switch pops) runs in an included child and in an imported module, followed by text of the includer that has to arrive. end_of_stream_pops_unconditionally: the one end_capture of the end-of-stream logic with the conditions it is under, regenerated (none). extends_anywhere_restores_callers_captures: the LoadBlocks / parent-switch pair as part of the balance of a whole stream, crossed pairing allowed — for any stream whose capture events never reach below its entry, contain one LoadBlocks at ANY capture depth and end one entry above the entry depth, the unconditional pop of the end-of-stream logic removes exactly the one entry that is left (the discard entry or, crossed, the buffer of the block around the extends) and the parent's instructions start on exactly the caller's capture stack. Dynamic oracle: every shape is rendered on the real engine in contexts taking different branches and compared with an independent reference interpreter (sentinel text + auto-escape probe + scope probe after every construct), and feature-guarded counters compare frame depth, capture depth, auto-escape mode and auto-escape stack at entry and normal exit of every eval_impl activation. New dynamic streams: (1) shapes with a recursive loop WITH an else block (forre) and four more recursion leaves — loop(x) inside an expression with a waiting operand (string concatenation; call argument + list literal under construction), and the two mixed forms where even / odd recursion depths alternate between the captured call with a waiting operand and the {{ loop(x) }} fast path (depth 3-4 trees) — compared with the reference interpreter (sentinel operands p…q show up in the output when a leaked flag is consumed in their place); (2) for every shape with a recursion leaf and every 16th other shape the verif_hooks::opstack hook records (pc, operand-stack height) in front of every instruction of every activation; drive_c05 runs MJ.Ops.step along every distinct trace: any transition the engine makes that the machine does not have is reported (at a recursion return: oracle failure = the level did not truncate to its own base; elsewhere: the effect table is not the engine's), and the machine checks on the way that every with / capture / autoescape / loop closes at the operand height it was opened at and that no recursion level ends below its base; the stream's projection is certified by the verified checker in the same run (hypothesis of certified_recursion_bases_paired) and must equal the balance dump of the same stream; (3) failure at every instruction position: every 96th (thorough: 48th) shape with a nested evaluation is rendered with 1, 2, 3, … units of fuel, so that the run stops in front of every instruction in turn (inside macro bodies, call blocks, blocks, includes, imports); every nested evaluation the error passes through must restore the ExecSnapshot, every finished activation its depths; (4) failure at every frame-pushing position: the same shapes under recursion limits 1…48 (push_frame / incr_depth give back what they took).",
     "design_ref": "DESIGN.md §3 C05, §2.3(c), §2.7",
-    "level_note": "Proved: compile_has_cert / compiled_code_balanced — for every statement tree the parser's in_loop discipline accepts, the Lean model of compile_stmt (MJ/Model/BalGen.lean, jump targets computed from block sizes where the Rust back-patches) emits code + certificate accepted by the verified checker, hence balanced on every path; the model generator is tied to codegen.rs by comparing its output with the REAL instruction stream on every enumerated and sampled shape (equal modulo `other` instructions and jump targets renumbered accordingly; instruction-for-instruction equal on most), any difference is a model disagreement. Proved: soundness of checkCert for the abstract VM of MJ/Model/Bal.lean (hand model of the balance-relevant part of vm/mod.rs eval_impl: PushWith/PopFrame/PushLoop/Iterate/PushDidNotIterate/PopLoopFrame/BeginCapture/EndCapture/PushAutoEscape/PopAutoEscape/Jump*/FastRecurse/CallFunction-on-loop/Return/BuildMacro; operand stack not tracked). The theorem is about the model generator, not about codegen.rs itself: what ties them is the stream comparison on the enumerated box (depth <= 3 / 4 chains over 25 kinds + deeper samples) and, independently, translation validation of every real stream (fixtures included) by the verified checker. Expressions with internal jumps (and/or, inline if, chained comparisons, macro argument defaults) are in the generator model as `flat` blocks (jumps stay inside, state unchanged); expression_code_is_flat proves that the expression generator model MJ.BalExpr.gen only produces such blocks. MOVED FROM VALIDATED TO PROVED in this round: (a) the pairing of loop_recursion_bases with the loop frames and the truncate-to-own-base of every recursion return (was: not modelled at all, operand stack 'not tracked'); (b) FramesOnTop / BalancedOnOk of a nested run of a certified stream that fails at ANY program counter (was: prose 'what checkCert_sound gives', now certified_run_keeps_callers_stacks on absolute stacks); (c) the PendingBlock back-patching mechanics (was: outside the model, replaced by size computation; now a model of the mechanism proved equal to the size-computing generator for every statement tree, ok or not). MOVED FROM VALIDATED TO PROVED in session 3/4: (d) the statement itself: C05_full E over an explicit Engine (templates, parser's statement tree, emitted stream) and C05_main with the two named hypotheses h_parser / h_codegen — before, the gap between compile_has_cert and the property was prose; C05_main_validated covers every stream the checker accepted at run time; (e) the tie of the abstract VM to eval_impl: was four booleans per arm (mentions frames / captures / escape stack / pc), now vm_arm_effects_as_modelled: the exact number of push_frame / pop_frame / begin_capture / end_capture / auto_escape_stack push|pop / loop_recursion_bases push|pop calls of EVERY arm (67), of recurse_loop!, of the end-of-stream logic and of the prologue, regenerated from vm/mod.rs, equals what MJ.Ops.step does on each of its stacks, measured by executing the machine (an arm that gains or loses one breaks the proof); (f) LoadBlocks' discard capture and the end-of-stream logic: was 'popped by the end-of-stream logic and not counted', now the model MJ/Model/Extends.lean with extends_pairs_with_end_of_stream (extends at relative capture depth 0) and, after seeded C05-8, extends_anywhere_restores_callers_captures (one LoadBlocks at ANY depth, crossed with set / filter blocks: net depth AND what the final pop removes; hypothesis `bal false 0 es = some (true, 1)` = the stream never pops below its entry and ends one entry up when LoadBlocks counts as an opening instruction — what the certificate of the stream says, the balance machine itself still has LoadBlocks as `other`: the two models are composed at the level of capture events, drive_c05 does not evaluate `bal` on the real streams), tied by the LoadBlocks / end-of-stream rows of C05_VM_EFFECTS and by end_of_stream_pops_unconditionally (the guard list of the one end_capture of the parent switch). NOT DONE, with reasons: (g) static operand heights for every statement kind: a certificate of constant heights per pc does not exist for the counted segments (`for … if` accumulates the passing items under a run-time counter and BuildList(None) / *args calls pop a run-time count: the height at the Iterate of the accumulation loop depends on the iteration), it would need symbolic heights (base + number of accumulated items) in checker and proof; stays validated by the replay of every traced run on MJ.Ops.step (closesAt / returnsAbove) and by m01 of own_mutants (EndCapture without DiscardTop in the break clean-up: caught by that replay); (h) expression-level jumps: PARTLY MOVED — expression_code_is_flat: the model MJ/Model/BalExpr.lean of the four places where compile_expr emits jumps (and / or, inline if, chained comparison with its clean-up, calls that may be a captured loop(x); any nesting; targets as the back-patching leaves them, computed from sizes like MJ.BalGen does for statements) only emits `flat` blocks, so compile_has_cert covers statement trees whose expressions are GENERATED, not only assumed flat; NOT done: the PendingBlock::ScBool mechanics themselves (start_sc_bool / sc_bool / end_sc_bool as state-passing back-patching, the way MJ.BalPatch does it for statements) and a stream comparison per expression — for the REAL streams nothing is assumed anyway (the verified checker follows every jump of every real stream, expressions included); validated by the stream comparison of the statement skeletons (kind ifa: and / or / chained comparison / inline if in every chain) and the start_if / end_if landmarks of compile_macro_expression in backpatch_sites_as_modelled. OBSERVATION (not a failing input of this check, not recorded as a finding; since wave 12 exercised on every shape by the extends+super entry point, whose oracle is only that the parent's output arrives): `{% extends %}` inside a set / filter block compiles; the block's EndCapture then pops LoadBlocks' discard entry (the variable is undefined) and the end-of-stream logic pops the block's buffer — capture depth restored, pairing not (extends_inside_capture_mispairs); everything behind extends is discarded anyway, the one observable is the variable's value inside a parent block. Still only validated: that a construct closes at the operand height it was opened at for constructs other than loop(...) levels (checked by the Ops machine on every replayed trace, not proved: statements start at level-relative height 0 and C01's no_underflow covers underflow within a level, the counted segments of `for … if` / *args make exact static heights a C01 matter); the operand effect table of the harness (op_tok, exhaustive match) is validated by the replay itself. Outside the generator model: spans/line tables, the back-patching inside expressions (ScBool, inline if: `flat` blocks). Trusted: harness token mapping of the Instruction enum (exhaustive match, breaks the build on a new instruction), the untrusted certificate inference only proposes (checkCert decides). Model assumptions: a loop object is only re-entered (CallFunction) while its loop is live in the calling activation's own frame stack — enforced by the engine since 08f57de (`is_active_loop`), passing `loop` into a macro and calling it there is an error and exercised as such; LoadBlocks' discard capture is not counted by the balance machine (modelled separately: MJ/Model/Extends.lean); nested evaluations (CallBlock, FastSuper, Include, macro calls) are separate activations whose own regions are certified and whose entry/exit depths are compared by the verif_hooks counters; the restore-on-error of the nested-evaluation wrappers is modelled separately (MJ/Model/Nested.lean, hand transcription; hypotheses on the nested body: it only pushes frames on top of / pops its own frames (what checkCert_sound gives), block stacks only grow by LoadBlocks) and exercised dynamically through error-swallowing Rust callbacks (try_call / try_block) with sentinel probes (root variable, with-variable, macro argument, escape mode, template name, current block) and the verif_hooks ExecSnapshot comparison (frames, depth, instructions, escape mode, current block, block table, loaded templates, per-frame closure attachment and loop recursion bookkeeping; NOT recorded because not scope: temps, fuel, the closure table's size, the macro context pool, the per-activation filter/test caches) around Macro::call, State::render_block, Include, CallBlock, FastSuper and (opt-in, on for the builtin leaf and every fourth shape) every ApplyFilter / PerformTest / CallFunction / CallMethod / CallObject on both outcomes; on the error path of a capturing super() / an instruction-driven CallBlock / Include the shared Output is left with open captures by design of the code (the error always propagates to the owner of that Output: a macro call, render_block or the top-level render, which drops it); a template that includes itself from inside a recursive loop and calls loop() outside that loop's text is outside both machines (FastRecurse with no loop in the region is modelled as the error it is in every other situation; the engine re-enters the includer's loop: exercised as extra:self-include-recursion with the engine's own counters and output as oracle); MJ.Ops: an instruction that would panic on the operand stack or fails has no successor (the run ends), PopFrame pops whatever is on top as the engine does (that it only meets with-frames is the proved consequence of the certificate); ",
+    "level_note": "Proved: compile_has_cert / compiled_code_balanced — for every statement tree the parser's in_loop discipline accepts, the Lean model of compile_stmt (MJ/Model/BalGen.lean, jump targets computed from block sizes where the Rust back-patches) emits code + certificate accepted by the verified checker, hence balanced on every path; the model generator is tied to codegen.rs by comparing its output with the REAL instruction stream on every enumerated and sampled shape (equal modulo `other` instructions and jump targets renumbered accordingly; instruction-for-instruction equal on most), any difference is a model disagreement. Proved: soundness of checkCert for the abstract VM of MJ/Model/Bal.lean (hand model of the balance-relevant part of vm/mod.rs eval_impl: PushWith/PopFrame/PushLoop/Iterate/PushDidNotIterate/PopLoopFrame/BeginCapture/EndCapture/PushAutoEscape/PopAutoEscape/Jump*/FastRecurse/CallFunction-on-loop/Return/BuildMacro; operand stack not tracked). The theorem is about the model generator, not about codegen.rs itself: what ties them is the stream comparison on the enumerated box (depth <= 3 / 4 chains over 25 kinds + deeper samples) and, independently, translation validation of every real stream (fixtures included) by the verified checker. Expressions with internal jumps (and/or, inline if, chained comparisons, macro argument defaults) are in the generator model as `flat` blocks (jumps stay inside, state unchanged); expression_code_is_flat proves that the expression generator model MJ.BalExpr.gen only produces such blocks. MOVED FROM VALIDATED TO PROVED in this round: (a) the pairing of loop_recursion_bases with the loop frames and the truncate-to-own-base of every recursion return (was: not modelled at all, operand stack 'not tracked'); (b) FramesOnTop / BalancedOnOk of a nested run of a certified stream that fails at ANY program counter (was: prose 'what checkCert_sound gives', now certified_run_keeps_callers_stacks on absolute stacks); (c) the PendingBlock back-patching mechanics (was: outside the model, replaced by size computation; now a model of the mechanism proved equal to the size-computing generator for every statement tree, ok or not). MOVED FROM VALIDATED TO PROVED in session 3/4: (d) the statement itself: C05_full E over an explicit Engine (templates, parser's statement tree, emitted stream) and C05_main with the two named hypotheses h_parser / h_codegen — before, the gap between compile_has_cert and the property was prose; C05_main_validated covers every stream the checker accepted at run time; (e) the tie of the abstract VM to eval_impl: was four booleans per arm (mentions frames / captures / escape stack / pc), now vm_arm_effects_as_modelled: the exact number of push_frame / pop_frame / begin_capture / end_capture / auto_escape_stack push|pop / loop_recursion_bases push|pop calls of EVERY arm (67), of recurse_loop!, of the end-of-stream logic and of the prologue, regenerated from vm/mod.rs, equals what MJ.Ops.step does on each of its stacks, measured by executing the machine (an arm that gains or loses one breaks the proof); (f) LoadBlocks' discard capture and the end-of-stream logic: was 'popped by the end-of-stream logic and not counted', now the model MJ/Model/Extends.lean with extends_pairs_with_end_of_stream (extends at relative capture depth 0) and, after seeded C05-8, extends_anywhere_restores_callers_captures (one LoadBlocks at ANY depth, crossed with set / filter blocks: net depth AND what the final pop removes; hypothesis `bal false 0 es = some (true, 1)` = the stream never pops below its entry and ends one entry up when LoadBlocks counts as an opening instruction — what the certificate of the stream says, the balance machine itself still has LoadBlocks as `other`: the two models are composed at the level of capture events, drive_c05 does not evaluate `bal` on the real streams), tied by the LoadBlocks / end-of-stream rows of C05_VM_EFFECTS and by end_of_stream_pops_unconditionally (the guard list of the one end_capture of the parent switch). THOROUGH TIER NOT VERIFIED IN SESSION 4: one `--tier thorough` run was started at load average ~120 and stopped after 37 min in the harness stage (35 CPU-minutes; the quick tier's harness stage is 3 CPU-minutes) to keep the deadline; the thorough tier has to be re-timed by the coordinator; if it is over budget, throttle the two new streams for that tier only (NOT-ENCLOSED positions for chains up to length 3, REPEAT on every 16th chain of length >= 4): a two-line change in do_shape_n / enumerate that was prepared but not committed because the last quick run of the session timed out in the harness stage on a stalled machine (TimeoutExpired after 3000 s, 33 min of system time) and could not confirm it. NOT DONE, with reasons: (g) static operand heights for every statement kind: a certificate of constant heights per pc does not exist for the counted segments (`for … if` accumulates the passing items under a run-time counter and BuildList(None) / *args calls pop a run-time count: the height at the Iterate of the accumulation loop depends on the iteration), it would need symbolic heights (base + number of accumulated items) in checker and proof; stays validated by the replay of every traced run on MJ.Ops.step (closesAt / returnsAbove) and by m01 of own_mutants (EndCapture without DiscardTop in the break clean-up: caught by that replay); (h) expression-level jumps: PARTLY MOVED — expression_code_is_flat: the model MJ/Model/BalExpr.lean of the four places where compile_expr emits jumps (and / or, inline if, chained comparison with its clean-up, calls that may be a captured loop(x); any nesting; targets as the back-patching leaves them, computed from sizes like MJ.BalGen does for statements) only emits `flat` blocks, so compile_has_cert covers statement trees whose expressions are GENERATED, not only assumed flat; NOT done: the PendingBlock::ScBool mechanics themselves (start_sc_bool / sc_bool / end_sc_bool as state-passing back-patching, the way MJ.BalPatch does it for statements) and a stream comparison per expression — for the REAL streams nothing is assumed anyway (the verified checker follows every jump of every real stream, expressions included); validated by the stream comparison of the statement skeletons (kind ifa: and / or / chained comparison / inline if in every chain) and the start_if / end_if landmarks of compile_macro_expression in backpatch_sites_as_modelled. OBSERVATION (not a failing input of this check, not recorded as a finding; since wave 12 exercised on every shape by the extends+super entry point, whose oracle is only that the parent's output arrives): `{% extends %}` inside a set / filter block compiles; the block's EndCapture then pops LoadBlocks' discard entry (the variable is undefined) and the end-of-stream logic pops the block's buffer — capture depth restored, pairing not (extends_inside_capture_mispairs); everything behind extends is discarded anyway, the one observable is the variable's value inside a parent block. Still only validated: that a construct closes at the operand height it was opened at for constructs other than loop(...) levels (checked by the Ops machine on every replayed trace, not proved: statements start at level-relative height 0 and C01's no_underflow covers underflow within a level, the counted segments of `for … if` / *args make exact static heights a C01 matter); the operand effect table of the harness (op_tok, exhaustive match) is validated by the replay itself. Outside the generator model: spans/line tables, the back-patching inside expressions (ScBool, inline if: `flat` blocks). Trusted: harness token mapping of the Instruction enum (exhaustive match, breaks the build on a new instruction), the untrusted certificate inference only proposes (checkCert decides). Model assumptions: a loop object is only re-entered (CallFunction) while its loop is live in the calling activation's own frame stack — enforced by the engine since 08f57de (`is_active_loop`), passing `loop` into a macro and calling it there is an error and exercised as such; LoadBlocks' discard capture is not counted by the balance machine (modelled separately: MJ/Model/Extends.lean); nested evaluations (CallBlock, FastSuper, Include, macro calls) are separate activations whose own regions are certified and whose entry/exit depths are compared by the verif_hooks counters; the restore-on-error of the nested-evaluation wrappers is modelled separately (MJ/Model/Nested.lean, hand transcription; hypotheses on the nested body: it only pushes frames on top of / pops its own frames (what checkCert_sound gives), block stacks only grow by LoadBlocks) and exercised dynamically through error-swallowing Rust callbacks (try_call / try_block) with sentinel probes (root variable, with-variable, macro argument, escape mode, template name, current block) and the verif_hooks ExecSnapshot comparison (frames, depth, instructions, escape mode, current block, block table, loaded templates, per-frame closure attachment and loop recursion bookkeeping; NOT recorded because not scope: temps, fuel, the closure table's size, the macro context pool, the per-activation filter/test caches) around Macro::call, State::render_block, Include, CallBlock, FastSuper and (opt-in, on for the builtin leaf and every fourth shape) every ApplyFilter / PerformTest / CallFunction / CallMethod / CallObject on both outcomes; on the error path of a capturing super() / an instruction-driven CallBlock / Include the shared Output is left with open captures by design of the code (the error always propagates to the owner of that Output: a macro call, render_block or the top-level render, which drops it); a template that includes itself from inside a recursive loop and calls loop() outside that loop's text is outside both machines (FastRecurse with no loop in the region is modelled as the error it is in every other situation; the engine re-enters the includer's loop: exercised as extra:self-include-recursion with the engine's own counters and output as oracle); MJ.Ops: an instruction that would panic on the operand stack or fails has no successor (the run ends), PopFrame pops whatever is on top as the engine does (that it only meets with-frames is the proved consequence of the certificate); ",
 }
 
 BALANCE_FILES = ("vm/mod.rs", "vm/context.rs", "vm/state.rs", "vm/loop_object.rs", "vm/macro_object.rs", "output.rs",
